@@ -265,6 +265,19 @@ def compute_attractor_candidates(
                 )
             retained_set = {}
             candidate_states = []
+            if len(node_nfvs) == 0:
+                # There is nothing to regenerate: the retained set stays empty and the
+                # candidates are all fixed points (the list computed above is truncated).
+                candidate_states = compute_fixed_point_reduced_STG(
+                    pn_reduced,
+                    retained_set,
+                    avoid_subspaces=child_motifs_reduced,
+                    solution_limit=sd.config["attractor_candidates_limit"],
+                )
+                if len(candidate_states) >= sd.config["attractor_candidates_limit"]:
+                    raise RuntimeError(
+                        f"Exceeded the maximum amount of attractor candidates ({sd.config['attractor_candidates_limit']}; see `SuccessionDiagramConfiguation.attractor_candidates_limit`)."
+                    )
             for var in node_nfvs:
                 retained_set[var] = 0
                 candidate_states_zero = compute_fixed_point_reduced_STG(
@@ -308,7 +321,9 @@ def compute_attractor_candidates(
                     candidate_states = candidate_states_one
                     continue
 
-                if len(candidate_states_zero) < len(candidate_states_one):
+                # (On a tie we have to pick zero: the list for one is truncated
+                # to the length of the list for zero and can be incomplete.)
+                if len(candidate_states_zero) <= len(candidate_states_one):
                     if sd.config["debug"]:
                         print(
                             f"[{node_id}] Chosen {var}=0 with better candidate count ({len(candidate_states_zero)}). {len(retained_set)}/{len(node_nfvs)} variables chosen."
